@@ -81,8 +81,8 @@ theorem safe_handler_ok (h : WeightsHandler) (hs : h.safe = true) (fs : FS) (n :
     stdWeightsResume h fs n = none := by
   simp only [WeightsHandler.safe, Bool.and_eq_true, Bool.or_eq_true] at hs
   obtain ⟨⟨⟨hskip, habs⟩, hcov⟩, hfb⟩ := hs
-  have fb : ∀ e, runFallback fs .weights e h.fallback = none := by
-    intro e
+  have fb : ∀ (c : Content) e, runFallback c e h.fallback = none := by
+    intro c e
     cases hf : h.fallback with
     | reraise => rw [hf] at hfb; simp [Fallback.safe] at hfb
     | skip => rfl
@@ -90,62 +90,128 @@ theorem safe_handler_ok (h : WeightsHandler) (hs : h.safe = true) (fs : FS) (n :
       rw [hf] at hfb
       simp only [Fallback.safe, Bool.and_eq_true, Bool.or_eq_true] at hfb
       obtain ⟨hg, hc⟩ := hfb
-      simp only [runFallback, loadWeights]
-      cases hw : fs ⟨.weights, .old⟩ with
+      simp only [runFallback]
+      cases c with
       | absent =>
         rcases hg with hg | hg
-        · simp [hg, FS.has, hw, Content.exists?]
-        · simp [FS.has, hw, Content.exists?, hg]
-      | complete v m => simp
-      | torn k e => simp [catches_torn c2 hc e]
+        · simp [hg, Content.exists?]
+        · simp [Content.exists?, loadContent, hg]
+      | complete v m => simp [loadContent]
+      | torn k e => simp [loadContent, catches_torn c2 hc e]
   unfold stdWeightsResume
   by_cases hn : n = 0
   · simp [hn, hskip]
   · simp only [hn, if_false, loadWeights]
-    cases hw : fs ⟨.weights, .base⟩ with
+    cases hw : fs ⟨.weights, primary n⟩ with
     | absent =>
       rcases habs with hg | hg
-      · simp [hg, FS.has, hw, Content.exists?]
-      · simp [FS.has, hw, Content.exists?, hg, fb]
-    | complete v m => simp
-    | torn k e => simp [catches_torn h.excs hcov e, fb]
+      · by_cases hm : h.onMissing <;> simp [hg, FS.has, hw, Content.exists?, hm, fb]
+      · by_cases hgd : h.guardExists <;> by_cases hm : h.onMissing <;>
+          simp [FS.has, hw, Content.exists?, loadContent, hg, fb, hgd, hm]
+    | complete v m => simp [loadContent, fb]
+    | torn k e => simp [loadContent, catches_torn h.excs hcov e, fb]
 
-/-- with the handler as it is in the source, an untorn (absent or complete) weights file
-never makes the resume raise -/
-theorem gen_untorn_ok (fs : FS) (hu : (fs wb).isTorn = false) (n : Nat) :
-    stdWeightsResume weightsHandler fs n = none := by
-  have hu' : (fs ⟨.weights, .base⟩).isTorn = false := hu
-  cases hw : fs ⟨.weights, .base⟩ with
-  | torn k e => rw [hw] at hu'; simp at hu'
-  | absent =>
-    by_cases hn : n = 0 <;>
-      simp [stdWeightsResume, weightsHandler, loadWeights, FS.has, hw, Content.exists?, hn,
-        runFallback, catches, ExcName.covers]
-  | complete v m =>
-    by_cases hn : n = 0 <;>
-      simp [stdWeightsResume, weightsHandler, loadWeights, FS.has, hw, Content.exists?, hn,
-        runFallback, catches, ExcName.covers]
+/-! ### the recorded weights path never drifts (standard sampler, handler as generated) -/
 
-/-- a weights save that is not killed inside the write leaves the weights file untorn -/
-theorem train_keeps_untorn (fs : FS) (w len : Nat) (e : Exc) (cp : Option CrashPt)
-    (hok : (Ev.train w len e cp).noTornTrain = true) (hu : (fs wb).isTorn = false) :
-    (trainResult protocol fs w len e cp wb).isTorn = false := by
-  cases cp with
-  | none =>
-    simp only [trainResult]
-    have := gen_saveSpec.final .weights ⟨w, 0, len, e⟩ fs
-    simp only [protocol, protocolWith]
-    rw [show (wb : Path) = ⟨.weights, .base⟩ from rfl, this]; rfl
-  | some cp =>
-    obtain ⟨j, ins, f⟩ := cp
-    cases ins with
-    | some k => simp [Ev.noTornTrain] at hok
-    | none =>
-      simp only [trainResult, protocol, protocolWith]
-      rcases gen_saveSpec.views .weights ⟨w, 0, len, e⟩ fs ⟨j, none, f⟩ with ⟨h1, _⟩ | ⟨_, h1, _⟩ | ⟨h1 | ⟨k, hk, _⟩, _⟩
-      · rw [show (wb : Path) = ⟨.weights, .base⟩ from rfl, h1]; exact hu
-      · rw [show (wb : Path) = ⟨.weights, .base⟩ from rfl, h1]; rfl
-      · rw [show (wb : Path) = ⟨.weights, .base⟩ from rfl, h1]; rfl
-      · cases hk
+/-- whatever comes back for a checkpoint that recorded no weights or `model.pt`, the path
+recorded afterwards is again none or `model.pt` -/
+theorem gen_back_le (fs : FS) (n : Nat) (hn : n ≤ 1) : (stdWeightsBack weightsHandler fs n).2 ≤ 1 := by
+  have h2 : n ≠ 2 := by omega
+  have hp : primary n = .base := by simp [primary, h2]
+  by_cases h0 : n = 0
+  · simp [stdWeightsBack, h0]
+  · cases hb : fs ⟨.weights, .base⟩ <;> cases ho : fs ⟨.weights, .old⟩ <;>
+      simp [stdWeightsBack, fallbackBack, fallbackContent, weightsHandler, h0, h2, hp, FS.has, hb, ho,
+        Content.exists?]
+
+theorem attempt_mem_le (top : Nat) (fs : FS) (s : Suffix)
+    (h : ∀ v n, fs ⟨.ckpt, s⟩ = .complete v n → n ≤ 1) :
+    memAfter (attempt .std protocol.cfg top fs s) ≤ 1 := by
+  unfold attempt
+  cases hc : fs ⟨.ckpt, s⟩ with
+  | absent => simp [memAfter]
+  | torn k e => simp [memAfter]
+  | complete v n =>
+    have hn := h v n hc
+    simp only
+    split
+    · simp only [memAfter, weightsBack]
+      exact gen_back_le fs n hn
+    · simp [memAfter]
+
+theorem resume_mem_le (top : Nat) (fs : FS) (h : PicklesLe fs 1) :
+    memAfter (resume .std protocol.cfg top fs) ≤ 1 := by
+  have h1 := attempt_mem_le top fs .base (fun v n hv => h cb v n (Or.inl rfl) hv)
+  have h2 := attempt_mem_le top fs .old (fun v n hv => h co v n (Or.inr rfl) hv)
+  unfold resume
+  simp only [protocol, protocolWith, resumeCfgWith] at h1 h2 ⊢
+  generalize attempt Kind.std _ top fs Suffix.base = o1 at h1 ⊢
+  generalize attempt Kind.std _ top fs Suffix.old = o2 at h2 ⊢
+  by_cases hany : (![Suffix.base, Suffix.old].any fun s => fs.has ⟨.ckpt, s⟩) = true
+  · simp only [hany, if_true]; simp [memAfter]
+  · simp only [hany, if_false]
+    cases o1 with
+    | fresh => exact h1
+    | loaded v n w m => exact h1
+    | raises e =>
+      by_cases hc : catches [ExcName.FileNotFoundError, ExcName.RuntimeError] e = true
+      · simp only [hc, if_true]
+        cases o2 with
+        | fresh => exact h2
+        | loaded v n w m => exact h2
+        | raises e2 =>
+          by_cases hc2 : catches [ExcName.RuntimeError] e2 = true <;> simp [hc2, memAfter]
+      · simp only [hc]
+        simp [memAfter]
+
+/-- every history: the in-memory weights path and every checkpoint on disk record none or
+`model.pt`, never `model.pt.old` -/
+theorem hist_no_drift (hist : List Ev) (s : Sys) (hm : s.mem ≤ 1) (hp : PicklesLe s.fs 1) :
+    (hist.foldl (step .std protocol) s).mem ≤ 1 ∧ PicklesLe (hist.foldl (step .std protocol) s).fs 1 := by
+  induction hist generalizing s with
+  | nil => exact ⟨hm, hp⟩
+  | cons e r ih =>
+    simp only [List.foldl]
+    cases e with
+    | ckpt se v n len cp =>
+      cases cp with
+      | none =>
+        apply ih
+        · exact hm
+        · intro p v' n' hpp hv
+          simp only [step, ckptN] at hv
+          rcases dump_run_prov gen_dumpSpec se ⟨v, s.mem, len, .tornPickle⟩ s.fs p hpp with h | h | h | h
+          · rw [show protocol.dump = dumpProg from rfl, h] at hv; exact hp cb v' n' (Or.inl rfl) hv
+          · rw [show protocol.dump = dumpProg from rfl, h] at hv; exact hp co v' n' (Or.inr rfl) hv
+          · rw [show protocol.dump = dumpProg from rfl, h] at hv; cases hv
+          · rw [show protocol.dump = dumpProg from rfl, h] at hv; cases hv; exact hm
+      | some cp =>
+        have hp' : PicklesLe (crashState (dumpProg se) .ckpt ⟨v, s.mem, len, .tornPickle⟩ s.fs cp) 1 := by
+          intro p v' n' hpp hv
+          rcases dump_crash_prov gen_dumpSpec se ⟨v, s.mem, len, .tornPickle⟩ s.fs cp p hpp with h | h | h | h
+          · rw [h] at hv; exact hp cb v' n' (Or.inl rfl) hv
+          · rw [h] at hv; exact hp co v' n' (Or.inr rfl) hv
+          · rw [h] at hv; cases hv
+          · rw [h] at hv; cases hv; exact hm
+        apply ih
+        · simp only [step, ckptN]; exact resume_mem_le _ _ hp'
+        · simp only [step, ckptN]; exact hp'
+    | train w len e cp =>
+      cases cp with
+      | none =>
+        apply ih
+        · simp [step, trainMem]
+        · intro p v' n' hpp hv
+          simp only [step, trainFam] at hv
+          rw [runProg_frame _ _ _ _ _ (by rcases hpp with rfl | rfl <;> simp)] at hv
+          exact hp p v' n' hpp hv
+      | some cp =>
+        have hp' : PicklesLe (crashState saveWeightsProg .weights ⟨w, 0, len, e⟩ s.fs cp) 1 := by
+          intro p v' n' hpp hv
+          rw [crashState_frame _ _ _ _ _ _ (by rcases hpp with rfl | rfl <;> simp)] at hv
+          exact hp p v' n' hpp hv
+        apply ih
+        · simp only [step, trainFam, trainTop]; exact resume_mem_le _ _ hp'
+        · simp only [step, trainFam]; exact hp'
 
 end NessaiVerif.CrashFS
